@@ -383,7 +383,7 @@ class SimEndpoint(object):
 
 
 class Attempt(object):
-    __slots__ = ("t", "host", "port", "outcome", "owner", "done_t", "conn", "cancelled")
+    __slots__ = ("t", "host", "port", "outcome", "owner", "done_t", "conn", "cancelled", "factory")
 
     def __init__(self, t, host, port, owner):
         self.t = t
@@ -394,6 +394,7 @@ class Attempt(object):
         self.done_t = None
         self.conn = None
         self.cancelled = False
+        self.factory = None
 
     def as_tuple(self):
         return (self.t, self.host, self.port, self.outcome)
@@ -449,6 +450,7 @@ class SimNet(object):
     def _connect(self, host, port, factory):
         now = self.clock.seconds()
         att = Attempt(now, host, port, self.owner)
+        att.factory = factory
         outcome, lat = self._decide(host, port)
         self.attempts.append(att)
         self.log.append(("connect", now, host, port))
